@@ -519,7 +519,8 @@ def leidenLoop (res tolOpt tolAgg : Rat) (nAgg : Int) :
       | some (refined, _) =>
         let refined := uniqueInverse refined
         let ar := aggregateRefine labels refined lv
-        let stop := ar.2.n == 1 || decide (inc ≤ tolAgg) || decide ((count : Int) = nAgg)
+        -- `stop |= n == n_previous`: a round whose refinement merges nothing ends the loop
+        let stop := ar.2.n == 1 || ar.2.n == lv.n || decide (inc ≤ tolAgg) || decide ((count : Int) = nAgg)
         if stop then
           some { labels := memb.map fun x => labels.getD x 0, increases := incs ++ [inc] }
         else
